@@ -1,6 +1,5 @@
 NOT_APPLICABLE = [
     {"property_id": "C05", "reason": "2-safety property relating pairs of complete floating-point solves (different formulations, back ends, threads); a contract speaks about one call, and relating two interior-point trajectories needs numerical analysis or execution (DESIGN §5)"},
     {"property_id": "C06", "reason": "statistical convergence claim (success rate / iteration counts over a problem distribution); no pre/postcondition expresses a frequency (DESIGN §5)"},
-    {"property_id": "C14", "reason": "derivatives of transcendental barriers (ln, exp, powf, Wright-omega, Newton iterations); no decidable theory in either back end; needs symbolic differentiation, a different family (DESIGN §5)"},
 ]
 LEVELS = {}
